@@ -295,6 +295,17 @@ def cases(draw, tier):
                         if not bool(L.value(node[k]).any()):
                             node[k]["lit"] = _set_first(node[k]["lit"], 1.0)
     case["rg_mode"] = _mark_leaves(draw, rs, allow_exp="no_expanded_leaves" not in trig)
+    if "singular_kronecker_factor_symeig" in trig:
+        # avoid exactly the trigger: the singular factor F is replaced by the (positive definite) dense matrix F + I
+        for kron, f in _singular_kron_factors(rs):
+            M = refmodel.dense(f)
+            M = 0.5 * (M + M.mT) + torch.eye(M.shape[-1], dtype=M.dtype)
+            i = [id(a) for a in kron["args"]].index(id(f))
+            kron["args"][i] = {"op": "Dense", "t": L.lit(M.tolist(), "f64")}
+    if "batched_interp_values_under_autograd_derivative" in trig:
+        for node in _batched_interp_under_autograd(rs):
+            node["lv"].pop("rg", None)
+            node["rv"].pop("rg", None)
     case["exp_leaf"] = draw(st.sampled_from(["base", "base", "view"]))
     # right / left operands
     if ep in NEEDS_RHS:
@@ -357,6 +368,8 @@ def cases(draw, tier):
     cell = {"memory_efficient": draw(st.booleans())}
     if ep in CG_EPS and draw(st.integers(0, 2)) == 0:
         cell["max_cholesky_size"] = 0
+        if ep == "root_decomposition" and "lanczos_root_leading_unit_batch" in trig and _leading_unit_batch(r):
+            del cell["max_cholesky_size"]
     case["cell"] = cell
     return case
 
@@ -659,6 +672,29 @@ def _kappa(M):
     return _spectrum(M)[0]
 
 
+def _ciq_domain_ok(A, rhs):
+    """contour_integral_quad estimates [lambda_min, lambda_max] from the Krylov space of the FIRST right-hand-side column
+    (slice 0 of any extra leading batch dims) and re-uses those quadrature nodes in the backward pass for the cotangent.
+    Its accuracy statement therefore needs that column to have a component on the extreme eigenvectors; otherwise the
+    quadrature interval misses part of the spectrum (e.g. a zero column).  Required here: relative component >= 1e-3."""
+    w, Q = torch.linalg.eigh(_sym(A.detach()))
+    r0 = rhs.detach().to(torch.float64)
+    if r0.dim() == 1:
+        r0 = r0.unsqueeze(-1)
+    while r0.dim() > A.dim():
+        r0 = r0[0]
+    r0 = r0[..., :, :1]
+    comp = torch.matmul(Q.mT, r0).squeeze(-1).abs()
+    nr = r0.norm(dim=-2)
+    if bool((nr == 0).any()):
+        return False
+    rel = comp / nr
+    top = w[..., -1:].abs()
+    lo = ((rel * ((w - w[..., :1]).abs() <= 1e-8 * top)) ** 2).sum(-1).sqrt()
+    hi = ((rel * ((w - w[..., -1:]).abs() <= 1e-8 * top)) ** 2).sum(-1).sqrt()
+    return bool((lo >= 1e-3).all()) and bool((hi >= 1e-3).all())
+
+
 def _internal_kappa(r):
     """Condition numbers of the sub-matrices that the classes themselves factorise / invert (root decompositions of the
     operands of Mul, the invertible summand of SumKronecker, the diagonal parts of the Woodbury / Kronecker-added-diag forms)."""
@@ -767,7 +803,7 @@ def _scales(b, hooks, G_hooks, g_ref):
         for (rec, _), G in zip(hooks, G_hooks):
             if G is None:
                 continue
-            Aabs = refmodel.dense(_abs_recipe(rec), amap).abs()
+            Aabs = refmodel.dense(_abs_recipe(rec), amap)  # (no abs() here: its derivative vanishes at exact zeros)
             Gm = G.detach().abs()
             Gm = Gm + (Gm.max() if Gm.numel() else 0.0)
             total = total + (Gm * Aabs).sum()
@@ -927,6 +963,8 @@ def check(case):
         kappa = max(kappa, k_)
     if not math.isfinite(kappa) or kappa > KAPPA_MAX:
         return done("illconditioned")
+    if ep.startswith("sqrt_inv_matmul") and not _ciq_domain_ok(A, tref["rhs"]):
+        return done("ciq_spectrum_not_covered")
     path = "direct"
     algos = run.algos()
     if ep.startswith("sqrt_inv_matmul"):
@@ -1210,6 +1248,64 @@ def _interp_rect_base(case):
     return False
 
 
+AUTOGRAD_DERIVATIVE = {"Cat", "Chol", "Kronecker", "KroneckerTri", "KroneckerDiag", "LowRankRoot", "Root", "Tri"}
+
+
+def _batched_interp_under_autograd(recs, only_rg=True):
+    """Interpolated nodes lying below a class whose _bilinear_derivative is the default (autograd through its own _matmul)
+    whose interpolation values are batched, or contain an exact zero (dropped from the sparse interpolation matrix)."""
+    found = []
+
+    def visit(node, below):
+        op = node["op"]
+        if op == "Interpolated" and below:
+            for k in ("lv", "rv"):
+                if (not only_rg or node[k].get("rg")) and (len(L.shape_of(node[k])) > 2 or bool((L.value(node[k]) == 0).any())):
+                    found.append(node)
+                    break
+        nxt = below or op in AUTOGRAD_DERIVATIVE
+        if op == "BatchRepeat":
+            shp = refmodel.shape(node)
+            nxt = nxt or shp[-1] != shp[-2]
+        for ch in R.children(node):
+            visit(ch, nxt)
+
+    for x in recs:
+        visit(x, False)
+    return found
+
+
+def _singular_kron_factors(recs):
+    """Kronecker factors (below KroneckerAddedDiag / SumKronecker, whose closed forms run _symeig on every factor) with an
+    eigenvalue that is zero to rounding: `evals.clamp_min(0.0)` in LinearOperator._symeig has derivative 0 there."""
+    found = []
+    for x in recs:
+        for node in R.walk(x):
+            if node["op"] in ("KroneckerAddedDiag", "SumKronecker"):
+                for a in node["args"]:
+                    if a["op"] == "Kronecker":
+                        for f in a["args"]:
+                            M = refmodel.dense(f)
+                            if M.shape[-1] != M.shape[-2]:
+                                continue
+                            w = torch.linalg.eigvalsh(0.5 * (M + M.mT))
+                            if bool((w.min(dim=-1)[0] <= 1e-9 * w.abs().max(dim=-1)[0].clamp_min(1e-300)).any()):
+                                found.append((a, f))
+    return found
+
+
+def _leading_unit_batch(r):
+    for n in R.walk(r):
+        bs = refmodel.shape(n)[:-2]
+        if len(bs) >= 2 and bs[0] == 1:
+            return True
+    return False
+
+
+def _lanczos_root_unit_batch(case):
+    return case["ep"] == "root_decomposition" and case["cell"].get("max_cholesky_size") == 0 and _leading_unit_batch(case["recipe"])
+
+
 def _interp_zero_values(case):
     recs = [case["recipe"]] + ([case["recipe2"]] if "recipe2" in case else [])
     for x in recs:
@@ -1222,6 +1318,11 @@ def _interp_zero_values(case):
 
 
 TRIGGERS = {
+    "lanczos_root_leading_unit_batch": _lanczos_root_unit_batch,
+    "singular_kronecker_factor_symeig": lambda case: bool(_singular_kron_factors([case["recipe"]] + ([case["recipe2"]] if "recipe2" in case else []))),
+    "batched_interp_values_under_autograd_derivative": lambda case: bool(
+        _batched_interp_under_autograd([case["recipe"]] + ([case["recipe2"]] if "recipe2" in case else []))
+    ),
     "has_Mul": lambda case: case["ep"] == "op_mul" or _has("Mul")(case),
     "interp_all_zero_values": _interp_zero_values,
     "identity_derivative_arity": _identity_arity,
